@@ -667,7 +667,7 @@ fn extreme_offsets(len: usize) -> Vec<usize> {
 
 pub fn run(rng: &mut Rng, out: &mut Out, thorough: bool) {
     let mut files = Files::new();
-    let nfiles = if thorough { 600 } else { 60 };
+    let nfiles = if thorough { 1000 } else { 150 };
     for fi in 0..nfiles {
         // 1-5 structures; an empty structure is forced at the end of every third file
         let n = rng.range(1, 5) as usize;
@@ -753,7 +753,7 @@ pub fn run(rng: &mut Rng, out: &mut Out, thorough: bool) {
     }
 
     // ---- files no serializer writes: length elements around every bound, viewed at offset 0 and 1
-    let nbad = if thorough { 400 } else { 60 };
+    let nbad = if thorough { 600 } else { 80 };
     for _ in 0..nbad {
         let body = rng.range(0, 6) as usize;
         let total = body + 2;
